@@ -133,7 +133,8 @@ fn angle_grid(thorough: bool) -> Vec<f64> {
     let n = if thorough { 256 } else { 64 };
     let mut v: Vec<f64> = (0..=n).map(|i| -4.0 * PI + 8.0 * PI * i as f64 / n as f64).collect();
     for c in [0.0, PI, 2.0 * PI, -PI, PI / 2.0] {
-        for d in [0.0, 1e-7, -1e-7, 1e-4, -1e-4, 1e-2, -1e-2] {
+        // dense towards the special angle: small-angle shortcuts are the classic place to go wrong
+        for d in [0.0, 1e-7, -1e-7, 1e-5, -1e-5, 1e-4, -1e-4, 1e-3, -1e-3, 3e-3, -3e-3, 7e-3, -7e-3, 1e-2, -1e-2, 3e-2, -3e-2, 0.1, -0.1] {
             v.push(c + d);
         }
     }
